@@ -18,18 +18,20 @@ def run(ctx):
     I = load_impl(ctx)
     rng = ctx.rng
     q = ctx.tier == "quick"
-    n_cases = 45 if q else 500
+    n_cases = 10 if q else 40        # per worker process (quick: 4 workers, thorough: 8)
     from sklearn.neighbors import KNeighborsClassifier
     for it in range(n_cases):
-        n_units = rng.randint(1, 5 if q else 6) if it % 11 == 10 else rng.randint(2, 5 if q else 6)
-        n_rows = rng.randint(2, 5) if it % 7 else 1
+        # the real ADD path costs rows*(rows+1)*units oracle queries per validation point: quick tier keeps most cases at <= 4 units / <= 4 rows
+        top = (5 if it % 5 == 4 else 4) if q else 6
+        n_units = rng.randint(1, top) if it % 11 == 10 else rng.randint(2, top)
+        n_rows = rng.randint(2, 4 if (q and it % 5 != 4) else 5) if it % 7 else 1
         maxw = rng.choice([1, 2, 2, 3])
         K = rng.randint(1, min(3, max(1, n_rows - 1)))
         if maxw == 1 and K == 1:
             K = 2
         rows = gen.rand_hypergraph(rng, n_units, n_rows, maxw)
         c = rng.randint(2, 3)
-        m = rng.randint(1, 2)
+        m = 1 if (q and rng.random() < 0.6) else rng.randint(1, 2)
         pool = sorted(rng.sample(range(-5, 30), c))
         y_train = [rng.choice(pool) for _ in range(n_rows)]
         classes = sorted(set(y_train))
@@ -83,7 +85,7 @@ def run(ctx):
             if "err" in ans or [Fraction(x) for x in ans["ok"]] != want:
                 ctx.mismatch("model Ds.Oracle.scores differs from the Shapley value of the K-NN game", case, impl=res, model=ans, spec=[str(x) for x in want],
                              failing_input=False, broken="theorem C02_main / corr:Ds.Oracle.scores")
-        if ctx.elapsed() > (85 if q else 900):
+        if ctx.elapsed() > (600 if q else 2400):
             break
     return ctx.finish("proof", "C02: the modelled boundary-pair sum over oracle counts equals the Shapley value of the K-NN game (oracle = by-definition count, distinct "
                       "distances, conjunctive presence); this run compared score() through the ADD path with the model and with Shapley-by-definition.", RULE)
